@@ -1182,6 +1182,165 @@ theorem GInv.foldl {m : LBqm Rat} (g : GInv m) (ops : List (HOp Rat)) : GInv (op
 /-- every state a history of data-level calls reaches from the empty model satisfies the representation invariant -/
 theorem GInv.hrun (vt : VT) (ops : List (HOp Rat)) : GInv (LBqm.hrun vt ops) := (GInv.empty vt).foldl ops
 
+/-! ### `evalL` is the polynomial of the coefficients the dict back-end reports
+
+`linear[v]` is `_adj[v][v]`; `iter_quadratic()` walks the neighbourhoods in order and yields `(u, v, bias)` for every `v` not
+seen before (`LBqm.iterQuadratic`): each interaction once, from its first endpoint in insertion order. -/
+
+/-- what the model reports, evaluated -/
+def repEval (m : LBqm Rat) (x : Label → Rat) : Rat :=
+  m.off + (m.adj.map fun r => lbias r.1 r.2 * x r.1).sum + (m.iterQuadratic.map fun t => t.2.2 * x t.1 * x t.2.1).sum
+
+/-- sum over the later elements of a list -/
+def upper (f : Label → Label → Rat) : List Label → Rat
+  | [] => 0
+  | a :: t => (t.map fun v => f a v).sum + upper f t
+
+theorem upper_eq_half (f : Label → Label → Rat) (hf : ∀ a b, f a b = f b a) (K : List Label) (hK : K.Nodup) :
+    (K.map fun u => (K.map fun v => if v = u then 0 else f u v).sum).sum = 2 * upper f K := by
+  induction K with
+  | nil => simp [upper]
+  | cons a t ih =>
+    rw [List.nodup_cons] at hK
+    have h1 : ((a :: t).map fun v => if v = a then 0 else f a v).sum = (t.map fun v => f a v).sum := by
+      simp only [List.map_cons, List.sum_cons, if_true, zero_add]
+      congr 1
+      apply List.map_congr_left
+      intro v hv
+      have : v ≠ a := fun e => hK.1 (e ▸ hv)
+      simp [this]
+    have h2 : (t.map fun u => (if a = u then 0 else f u a) + (t.map fun v => if v = u then 0 else f u v).sum)
+        = t.map fun u => f a u + (t.map fun v => if v = u then 0 else f u v).sum := by
+      apply List.map_congr_left
+      intro u hu
+      have : a ≠ u := fun e => hK.1 (e ▸ hu)
+      simp only [this, if_false]
+      rw [hf u a]
+    simp only [List.map_cons, List.sum_cons]
+    simp only [List.map_cons, List.sum_cons] at h1
+    rw [h1, h2, sum_map_add', ih hK.2]
+    simp only [upper]; ring
+
+theorem sum_filter_ite' {α : Type} (l : List α) (q : α → Bool) (g : α → Rat) :
+    ((l.filter q).map g).sum = (l.map fun p => if q p then g p else 0).sum := by
+  induction l with
+  | nil => rfl
+  | cons e t ih =>
+    rw [List.filter_cons]
+    by_cases h : q e = true
+    · simp only [h, if_true, List.map_cons, List.sum_cons, ih]
+    · simp only [h, Bool.false_eq_true, if_false, List.map_cons, List.sum_cons, ih]; ring
+
+/-- one neighbourhood, restricted to the variables not in `S`, as a sum over all variables -/
+theorem row_unseen_over_keys (m : LBqm Rat) (i : LInv m) (u : Label) (nu : ODict Label Rat) (h : (u, nu) ∈ m.adj) (S : List Label)
+    (x : Label → Rat) :
+    ((nu.filter fun p => !S.contains p.1).map fun p => p.2 * x u * x p.1).sum
+      = ((okeys m.adj).map fun v => if v ∈ S then 0 else m.entry u v * x u * x v).sum := by
+  rw [sum_filter_ite' nu (fun p => !S.contains p.1) (fun p => p.2 * x u * x p.1)]
+  have := sum_row_over_keys nu (i.rowNodup u nu h) (okeys m.adj) i.nodup (i.closed u nu h)
+    (fun v b => if (!S.contains v) = true then b * x u * x v else 0)
+  rw [this]
+  congr 1
+  apply List.map_congr_left
+  intro v _
+  rw [entry_of_mem m i.nodup u nu h v]
+  by_cases hv : v ∈ S
+  · cases hg : ODict.get? nu v <;> simp [hv]
+  · cases hg : ODict.get? nu v <;> simp [hv]
+
+theorem sum_map_all_zero {α : Type} (l : List α) (g : α → Rat) (h : ∀ a ∈ l, g a = 0) : (l.map g).sum = 0 := by
+  induction l with
+  | nil => rfl
+  | cons a t ih =>
+    simp only [List.map_cons, List.sum_cons]
+    rw [h a List.mem_cons_self, ih (fun b hb => h b (List.mem_cons_of_mem _ hb))]; ring
+
+/-- the walk of `iter_quadratic` over a suffix of the rows, `seen` = the variables of the prefix -/
+theorem go_sum (m : LBqm Rat) (i : LInv m) (x : Label → Rat) :
+    ∀ (suf pre : List (Label × ODict Label Rat)) (seen : List Label), m.adj = pre ++ suf → (∀ v, v ∈ seen ↔ v ∈ okeys pre) →
+      ((iterQuadratic.go suf seen).map fun t => t.2.2 * x t.1 * x t.2.1).sum
+        = upper (fun u v => m.entry u v * x u * x v) (okeys suf) := by
+  intro suf
+  induction suf with
+  | nil => intro pre seen _ _; simp [iterQuadratic.go, upper, okeys]
+  | cons r rest ih =>
+    intro pre seen hadj hseen
+    obtain ⟨u, nu⟩ := r
+    have hmem : (u, nu) ∈ m.adj := by rw [hadj]; simp
+    have hK : okeys m.adj = okeys pre ++ u :: okeys rest := by rw [hadj]; simp [okeys]
+    have hnd := i.nodup
+    rw [hK] at hnd
+    simp only [iterQuadratic.go, List.map_append, List.sum_append, List.map_map]
+    have hfirst : ((nu.filter fun p => !(u :: seen).contains p.1).map
+          ((fun t : Label × Label × Rat => t.2.2 * x t.1 * x t.2.1) ∘ fun p => (u, p.1, p.2))).sum
+        = ((okeys rest).map fun v => m.entry u v * x u * x v).sum := by
+      have e0 : ((fun t : Label × Label × Rat => t.2.2 * x t.1 * x t.2.1) ∘ fun p : Label × Rat => (u, p.1, p.2))
+          = fun p => p.2 * x u * x p.1 := rfl
+      rw [e0, row_unseen_over_keys m i u nu hmem (u :: seen) x, hK, List.map_append, List.sum_append, List.map_cons, List.sum_cons]
+      have z1 : ((okeys pre).map fun v => if v ∈ u :: seen then 0 else m.entry u v * x u * x v).sum = 0 := by
+        apply sum_map_all_zero
+        intro v hv
+        have : v ∈ u :: seen := List.mem_cons_of_mem _ ((hseen v).mpr hv)
+        simp [this]
+      have z2 : (if u ∈ u :: seen then 0 else m.entry u u * x u * x u) = 0 := by simp
+      rw [z1, z2]
+      simp only [zero_add]
+      congr 1
+      apply List.map_congr_left
+      intro v hv
+      have hv1 : v ≠ u := by
+        intro e; subst e
+        have := (List.nodup_append.mp hnd).2.1
+        exact (List.nodup_cons.mp this).1 hv
+      have hv2 : v ∉ seen := by
+        intro hs
+        have hp := (hseen v).mp hs
+        exact (List.nodup_append.mp hnd).2.2 v hp v (List.mem_cons_of_mem _ hv) rfl
+      have : v ∉ u :: seen := by
+        intro h; rcases List.mem_cons.mp h with e | e
+        · exact hv1 e
+        · exact hv2 e
+      simp [this]
+    rw [hfirst]
+    have hrest := ih (pre ++ [(u, nu)]) (u :: seen) (by rw [hadj]; simp) (by
+      intro v
+      simp only [okeys, List.map_append, List.map_cons, List.map_nil, List.mem_append, List.mem_cons, List.mem_singleton, List.not_mem_nil, or_false]
+      have := hseen v
+      simp only [okeys] at this
+      rw [this]; tauto)
+    rw [hrest]
+    simp [upper, okeys]
+
+/-- **the dict model's polynomial is the polynomial of the reported coefficients** (offset, `_adj[v][v]` per variable, each
+    interaction once as `iter_quadratic` yields it) on every state satisfying the invariant -/
+theorem evalL_eq_repEval (m : LBqm Rat) (i : LInv m) (x : Label → Rat) : evalL (1/2) m x = repEval m x := by
+  unfold evalL repEval
+  have hrows : (m.adj.map fun r => rowVal (1/2) x r.1 r.2)
+      = m.adj.map fun r => lbias r.1 r.2 * x r.1
+        + 1/2 * ((okeys m.adj).map fun v => if v = r.1 then 0 else (fun a b => m.entry a b * x a * x b) r.1 v).sum := by
+    apply List.map_congr_left
+    intro r hr
+    obtain ⟨b, hb⟩ := i.self r.1 r.2 hr
+    have hl : lbias r.1 r.2 = b := by unfold lbias; rw [hb]; rfl
+    rw [rowVal_split x r.1 r.2 (i.rowNodup r.1 r.2 hr) b hb, hl]
+    congr 1
+    have e1 : ((others r.1 r.2).map fun p => 1/2 * p.2 * x r.1 * x p.1)
+        = (others r.1 r.2).map fun p => 1/2 * (p.2 * (fun v => x r.1 * x v) p.1) := by
+      apply List.map_congr_left; intro p _; ring
+    rw [e1, sum_map_mul_left', others_over_keys m i r.1 r.2 hr (fun v => x r.1 * x v)]
+    congr 2
+    apply List.map_congr_left
+    intro v _
+    by_cases hv : v = r.1 <;> simp [hv]; ring
+  rw [hrows, sum_map_add', sum_map_mul_left']
+  have e2 : (m.adj.map fun r => ((okeys m.adj).map fun v => if v = r.1 then 0 else (fun a b => m.entry a b * x a * x b) r.1 v).sum)
+      = (okeys m.adj).map fun u => ((okeys m.adj).map fun v => if v = u then 0 else (fun a b => m.entry a b * x a * x b) u v).sum := by
+    unfold okeys; rw [List.map_map]; rfl
+  rw [e2, upper_eq_half (fun a b => m.entry a b * x a * x b) (fun a b => by show m.entry a b * x a * x b = m.entry b a * x b * x a; rw [i.sym a b]; ring) (okeys m.adj) i.nodup]
+  have hg := go_sum m i x m.adj [] [] (by simp) (by intro v; simp [okeys])
+  unfold iterQuadratic
+  rw [hg]; ring
+
 end LBqm
 
 end En
